@@ -20,7 +20,7 @@ def rand_box(rng, region=200.0, smin=0.5, smax=60.0):
 
 def pair(rng):
     """a pair of boxes in one of several configurations"""
-    kind = rng.choice(["general", "general", "overlap", "overlap", "nested", "identical", "touching", "edge-share", "far", "big-coords", "tiny"])
+    kind = rng.choice(["general", "general", "overlap", "overlap", "nested", "identical", "touching", "edge-share", "nested-shared-edges", "far", "big-coords", "tiny"])
     a = rand_box(rng)
     if kind == "big-coords":
         a[0] = f32(rng.uniform(5000, 10000)); a[1] = f32(rng.uniform(5000, 10000)); a[4] = f32(rng.uniform(100, 1000))
@@ -37,6 +37,21 @@ def pair(rng):
              a[3], f32(a[4] * rng.uniform(0.1, 0.5))]
     elif kind == "identical":
         b = list(a)
+    elif kind == "nested-shared-edges":
+        # one common rotated frame, the same centre, and one extent in common: the smaller box is nested in the larger one and
+        # shares two whole edges' lines with it (collinear, exactly parallel edges — F11: rounding puts a vertex on the outer
+        # side of a parallel clipping edge). Also the variant that shares one edge only (shifted along the common axis).
+        if a[2] is None or rng.random() < 0.5:
+            a[2] = f32(rng.choice([math.pi / 2, -math.pi / 2, rng.uniform(-3, 3), 1.0]))
+        k = rng.choice([0.5, 0.25, 0.75])
+        if rng.random() < 0.5:
+            b = [a[0], a[1], a[2], f32(a[3] * k), a[4]]                    # same height, narrower
+        else:
+            b = [a[0], a[1], a[2], f32(a[3] / k), f32(a[4] * k)]           # same width, lower
+        if rng.random() < 0.4:
+            d = (1 - k) * w / 2 * rng.choice([1, -1, 0.5])
+            b[0] = f32(a[0] + d * math.cos(a[2])); b[1] = f32(a[1] + d * math.sin(a[2]))
+        if rng.random() < 0.5: a, b = b, a
     elif kind == "touching":       # axis aligned, sharing an edge or a corner exactly
         a[2] = None if rng.random() < .5 else 0.0
         a[0] = float(round(a[0])); a[1] = float(round(a[1])); a[3] = rng.choice([1.0, 2.0]); a[4] = float(rng.choice([4, 8, 16]))
